@@ -6,9 +6,12 @@
 #ifndef FCPPT_CONTAINER_BITFIELD_OPERATORS_HPP_INCLUDED
 #define FCPPT_CONTAINER_BITFIELD_OPERATORS_HPP_INCLUDED
 
+#include <fcppt/cast/size.hpp>
 #include <fcppt/container/bitfield/object_impl.hpp>
+#include <fcppt/container/bitfield/detail/element_bits.hpp>
 #include <fcppt/config/external_begin.hpp>
 #include <algorithm>
+#include <cstddef>
 #include <fcppt/config/external_end.hpp>
 
 namespace fcppt
@@ -106,6 +109,20 @@ operator~(fcppt::container::bitfield::object<ElementType, InternalType> _field)
       _field.array().end(),
       _field.array().begin(),
       [](InternalType const _arg) { return ~_arg; });
+
+  // Bits of the last word that belong to no enumerator must stay zero,
+  // because comparison and hashing work on whole words.
+  using object_type = fcppt::container::bitfield::object<ElementType, InternalType>;
+
+  constexpr std::size_t const used_bits{
+      fcppt::cast::size<std::size_t>(object_type::static_size::value) %
+      fcppt::container::bitfield::detail::element_bits<std::size_t, InternalType>::value};
+
+  if constexpr (used_bits != 0U)
+  {
+    _field.array().get_unsafe(object_type::array_size::value - 1U) &=
+        static_cast<InternalType>((InternalType{1U} << used_bits) - 1U);
+  }
 
   return _field;
 }
